@@ -83,11 +83,20 @@ class Tally:
         self.checks = 0
         self.counters = {}
         self.violation = None   # (mechanism, detail)
+        self.metrics = {}       # name -> max value observed (e.g. observed difference / tolerance)
         self.all_violations = []
         self.notes = []
 
     def count(self, name, k=1):
         self.counters[name] = self.counters.get(name, 0) + int(k)
+
+    def metric(self, name, value):
+        try:
+            v = float(value)
+        except (TypeError, ValueError):
+            return
+        if v == v and v > self.metrics.get(name, float('-inf')):
+            self.metrics[name] = v
 
     def check(self, ok, mechanism, detail=None):
         """Record one oracle comparison. `detail` may be a callable producing the witness lazily."""
@@ -109,8 +118,10 @@ class Tally:
                     extra.append(dict(mechanism=m, detail=d))
             r = violated(extra[0]['mechanism'], extra[0]['detail'], self.checks, sig, self.counters, sample)
             r['more'] = extra[1:]
+            r['metrics'] = self.metrics
             return r
         r = held(self.checks, nontrivial, sig, self.counters, sample, self.notes or None)
+        r['metrics'] = self.metrics
         if self.checks == 0:
             r['status'] = 'inconclusive'
             r['reason'] = 'no oracle comparison was reached'
@@ -314,7 +325,7 @@ def run_property(prop, tier, replay=None):
         results[i] = violated(f'crash:rc={sig}', dict(returncode=rc, stderr=errtxt[-1500:]))
 
     agg = dict(held=0, violated=0, inconclusive=0, skipped_budget=0, known=0)
-    counters, checks = {}, 0
+    counters, checks, metrics = {}, 0, {}
     sigs, samples, viol_lines, known_lines, inconc_reasons = set(), [], [], {}, []
     unlisted = 0
     for i, case in indexed:
@@ -323,6 +334,9 @@ def run_property(prop, tier, replay=None):
         for k, v in (r.get('counters') or {}).items():
             counters[k] = counters.get(k, 0) + v
         checks += r.get('checks', 0)
+        for k, v in (r.get('metrics') or {}).items():
+            if v is not None and v > metrics.get(k, float('-inf')):
+                metrics[k] = v
         if st == 'violated':
             all_v = [dict(mechanism=r['mechanism'], detail=r.get('detail'))] + list(r.get('more') or [])
             new = [v for v in all_v if v['mechanism'] not in known_keys]
@@ -386,6 +400,7 @@ def run_property(prop, tier, replay=None):
         samples=samples[:6] or [dict(note='no held case to sample')],
         oracle_comparisons=checks,
         monitor_counters=counters,
+        max_metrics=metrics,
         case_verdicts=agg,
         cases_generated=len(cases),
         verdict=verdict,
@@ -408,6 +423,8 @@ def run_property(prop, tier, replay=None):
           f'violated={agg["violated"]} inconclusive={agg["inconclusive"]} skipped_by_budget={agg["skipped_budget"]} '
           f'distinct_nontrivial={len(sigs)} oracle_comparisons={checks} wall={wall:.1f}s')
     print('monitor counters: ' + canon(counters))
+    if metrics:
+        print('max metrics: ' + canon({k: round(v, 6) for k, v in metrics.items()}))
     for n in notes[:5]:
         print('note: ' + n)
     if verdict == 'violated':
